@@ -66,7 +66,7 @@ def make_cases(run):
         misc_ok = rng.random() < 0.5
         cfg = (["filter 19 0"] if misc_ok else []) + (["filter 13 0"] if rng.random() < 0.2 else [])
         if rng.random() < 0.2:
-            cfg.append("flags %d" % rng.choice([1, 512, 8, 1 | 8]))
+            cfg.append("flags %d" % rng.choice([1, 512, 8, 1 | 8, 128, 256]))
         cases.append(("syn%d:%s" % (i, desc), cfg + ["src synthetic " + desc], G.gen_history(rng, misc_ok), "synthetic"))
     xmls = S.xml_corpus()
     if quick:
@@ -171,6 +171,11 @@ def findings_of(r, meta):
             nboth = sum(1 for x in lines[:lines.index(l)] if x.startswith("both "))
             opname = step[nboth - 1].split(" ")[1] if 0 < nboth <= len(step) else "?"
             out.append(("twin-diverges:" + opname, "the same call on the original and on the copy answers differently / leaves different observations after identical histories (%s): %s" % (step[nboth - 1] if 0 < nboth <= len(step) else "?", l[:500]), False))
+        elif l.startswith("nogpcmp DIFF") and not any(h.startswith("mut ") for h in r.get("script", [])):
+            step = [h for h in r.get("script", []) if h.startswith("both ")]
+            nboth = sum(1 for x in lines[:lines.index(l)] if x.startswith("both "))
+            cur = step[nboth - 1] if 0 < nboth <= len(step) else "?"
+            out.append(("twin-diverges:" + (cur.split(" ")[1] if cur != "?" else "?") + ":objects", "identical histories on the original and on the copy give different topologies even with gp_index left out (%s): %s" % (cur, l[:500]), False))
         elif l.startswith("frame DIFF"):
             prev = lines[lines.index(l) - 1]
             out.append(("frame:" + (prev.split(" ")[0] if prev else "?"), "modifying/destroying one topology changed what the other reports (%s): %s" % (prev, l[:400]), False))
@@ -282,7 +287,7 @@ def check(run, replay=None):
                 h2 = shrink(exe, drv, cfg, hist, key, meta)
             run.violation(key, what + "   [case %s]" % name, "\n".join(script_of(cfg, h2)) + "\n--- output\n" + "\n".join(l[:400] for l in r["lines"] if not l.startswith(("share ", "class ", "allowed ")))[:6000],
                           no_input=corr and not spec_broken)
-    for op in ("robj", "misc", "gobj", "distadd", "distrm", "distrmdepth", "distfail", "disthandle", "mreg", "mset", "mseto", "kobj", "kinfo", "kinfoclr", "subtype", "info", "infoclr", "tinfo", "tinfoclr", "refresh", "ud", "udclr", "restrict"):
+    for op in ("robj", "misc", "gobj", "distadd", "disthet", "distrm", "distrmdepth", "distfail", "disthandle", "mreg", "mset", "mseto", "kobj", "kinfo", "kinfoclr", "subtype", "info", "infoclr", "tinfo", "tinfoclr", "refresh", "ud", "udclr", "restrict"):
         n = sum(1 for (_, _, hist, _) in cases for l in hist if (" " + op + " ") in (" " + l + " "))
         if n:
             run.bump("op:" + op, n)
